@@ -1456,7 +1456,7 @@ fn generate(seed: u64, index: u64) -> (String, Vec<Vec<String>>, &'static str) {
     let mut rng = Rng::for_case(seed ^ 0x5151, index);
     if flavour < 9 {
         let decls = p.decls.clone();
-        let pd = Program { decls, cmds: vec![] };
+        let pd = Program { decls, cmds: vec![], expect: vec![] };
         for c in p.cmds.iter_mut() {
             let bad = match c {
                 Cmd::Rule(rl) => !rule_in_modelled_fragment(&pd, rl),
